@@ -225,7 +225,15 @@ def chunk_merged(chunk):
 
 def main():
     ck = yv.Check("C10", "model_checking")
-    w = setup_worker()
+    try:
+        w = setup_worker()
+    except AssertionError as e:
+        if e.args and e.args[0] and e.args[0][0] == "baseline not stable":
+            # after the warm-up pass a create / scan / scan / destroy cycle still changes the number of live allocations: something survives the scanner
+            ck.violation("C10:leak:scanner-cycle-after-warm-up", dict(live_before=e.args[0][1], after=e.args[0][2], cycle="scanner create, scan PE, scan TXT1, destroy"))
+            ck.cov["states"] = ck.cov["transitions"] = 1; ck.cov["exhaustive"] = False
+            ck.finish(); return
+        raise
     ops, fresh, base, info = w._c10
     nops = len(ops)
     L = 2 if ck.tier == "quick" else 3
